@@ -44,6 +44,42 @@ type redeemOutcome struct {
 	ErrA, ErrB, ErrBOnly string
 }
 
+// redeemFixture: a 2-of-3 multisig redeem script over seeded keys.
+func redeemFixture() ([]byte, []*btcec.PrivateKey) {
+	var privs []*btcec.PrivateKey
+	var pubs []*btcutil.AddressPubKey
+	for i := 0; i < 3; i++ {
+		priv, pub := btcec.PrivKeyFromBytes(btcec.S256(), newDet("btcredeem/"+string(rune('a'+i))).Bytes(32))
+		ap, err := btcutil.NewAddressPubKey(pub.SerializeCompressed(), &chaincfg.TestNet3Params)
+		if err != nil {
+			panic(err)
+		}
+		privs = append(privs, priv)
+		pubs = append(pubs, ap)
+	}
+	redeem, err := txscript.MultiSigScript(pubs, 2)
+	if err != nil {
+		panic(err)
+	}
+	return redeem, privs
+}
+
+func btcSign(k *btcec.PrivateKey, msg []byte) []byte {
+	sg, err := k.Sign(btcutil.Hash160(msg))
+	if err != nil {
+		panic(err)
+	}
+	return sg.Serialize()
+}
+
+func catBytes(parts ...[]byte) []byte {
+	var r []byte
+	for _, p := range parts {
+		r = append(r, p...)
+	}
+	return r
+}
+
 func collideRedeemFull() ([]kWrite, *redeemOutcome) {
 	var privs []*btcec.PrivateKey
 	var pubs []*btcutil.AddressPubKey
